@@ -318,7 +318,7 @@ def run(tier, seed):
             rep.count(1, key=json.dumps([c, script, s]))
             rep.sample({'config': c, 'calls': script, 'learned_range': [lo.tolist(), hi.tolist()]}, limit=3)
     clean = [{'events': [{k: v for k, v in e.items() if not k.startswith('_')} for e in t['events']]} for t in traces]
-    verdicts, st, trn = tlc.validate_traces('ClassificationTrace', clean, 'c19', chunk=200)
+    verdicts, st, trn = tlc.validate_traces('ClassificationTrace', clean, 'c19', chunk=200, unevaluable='C19_SpecEvaluable')
     rep.cov['states'] += st
     rep.cov['transitions'] += trn
     rep.cov['traces_validated_against_impl'] += len(traces)
